@@ -353,6 +353,33 @@ def _inline_locals(fn_node: ast.AST, stmts: list[ast.stmt], only_within: ast.AST
     return walk(stmts)
 
 
+class _PushNot(ast.NodeTransformer):
+    """`not (A and B)` -> `not A or not B`, `not (A or B)` -> `not A and not B`, `not not A` -> `A`
+    (operand order kept): the two spellings of one condition print alike."""
+
+    def visit_UnaryOp(self, node: ast.UnaryOp) -> ast.AST:
+        if isinstance(node.op, ast.Not):
+            o = node.operand
+            if isinstance(o, ast.BoolOp):
+                op = ast.Or() if isinstance(o.op, ast.And) else ast.And()
+                return self.visit(ast.BoolOp(op=op, values=[ast.UnaryOp(op=ast.Not(), operand=x) for x in o.values]))
+            if isinstance(o, ast.UnaryOp) and isinstance(o.op, ast.Not):
+                return self.visit(o.operand)
+        self.generic_visit(node)
+        return node
+
+    def visit_BoolOp(self, node: ast.BoolOp) -> ast.AST:
+        self.generic_visit(node)
+        vals: list[ast.expr] = []
+        for x in node.values:  # flatten nested same-operator groups
+            if isinstance(x, ast.BoolOp) and type(x.op) is type(node.op):
+                vals.extend(x.values)
+            else:
+                vals.append(x)
+        node.values = vals
+        return node
+
+
 def _norm_stmts(stmts: list[ast.stmt], mapping: dict[str, str], fn_node: ast.AST | None = None) -> list[str]:
     if fn_node is not None:
         stmts = _inline_locals(fn_node, stmts)
@@ -361,7 +388,7 @@ def _norm_stmts(stmts: list[ast.stmt], mapping: dict[str, str], fn_node: ast.AST
     for s in stmts:
         if isinstance(s, ast.Expr) and isinstance(s.value, ast.Constant):
             continue  # docstring
-        t = _Renamer(mapping).visit(clone(s))
+        t = ast.fix_missing_locations(_PushNot().visit(_Renamer(mapping).visit(clone(s))))
         if isinstance(t, (ast.FunctionDef, ast.AsyncFunctionDef)):
             t.returns = None
         out.append(" ".join(src(t).split()))
@@ -467,7 +494,7 @@ def _body_norm(fn: Func, loop: ast.While, ren: dict[str, str]) -> list[str]:
     def flat(ss: list[ast.stmt], depth: int) -> None:
         for s_ in ss:
             if isinstance(s_, ast.If):
-                out.append("  " * depth + "if " + " ".join(src(_Renamer(ren).visit(clone(s_.test))).split()))
+                out.append("  " * depth + "if " + " ".join(src(ast.fix_missing_locations(_PushNot().visit(_Renamer(ren).visit(clone(s_.test))))).split()))
                 flat(s_.body, depth + 1)
                 if s_.orelse:
                     out.append("  " * depth + "else")
